@@ -7,7 +7,8 @@
 (* the model `exp` that a faithful parser must return for these lines:     *)
 (* elements in file order, parents, names, tags with their lines, step     *)
 (* types (And/But/* inherit from the preceding step; And/But as first step *)
-(* inherit from the last background step in effect), description lines,    *)
+(* inherit from the last background step in effect, '*' as first step is a *)
+(* Given and the steps after it inherit that), description lines,          *)
 (* doc-string lines relative to the column of the opening quotes, table    *)
 (* cells, and the 1-based line of everything.  GherkinDoc_MC checks        *)
 (* Parse(lines) = exp with the machine of GherkinParser.tla.               *)
@@ -107,7 +108,8 @@ AddScenario(g0, kind, layout, how, ndesc) ==
 BgT(g) == IF g.contBgT # "" THEN g.contBgT ELSE g.inhT
 StepType(g, kw) == IF kw \in {"given", "when", "then"} THEN kw
                    ELSE IF g.lastT # "" THEN g.lastT
-                   ELSE IF kw = "star" THEN "" ELSE BgT(g)
+                   ELSE IF kw = "star" THEN "given"          \* '*' opening a statement is a Given (it is listed there first)
+                   ELSE BgT(g)
 CanStep(g, kw) == g.cur \in {"background", "scenario", "outline"} /\ StepType(g, kw) # ""
 
 \* doc-string bodies: sequences of [c, a, rel] (class, subclass, indentation relative to the opening quotes)
@@ -164,7 +166,7 @@ AddStep(g0, kw, arg, how) ==
                           !.contBgT = IF g1.cur = "background" THEN ty ELSE @,
                           !.featBgT = IF g1.cur = "background" /\ g1.cont = g1.f THEN ty ELSE @,
                           !.stStep = IF first THEN Len(g1.lines) ELSE @,
-                          !.stAlone = IF first THEN kw \in {"given", "when", "then"} ELSE @]
+                          !.stAlone = IF first THEN kw \in {"given", "when", "then", "star"} ELSE @]
    IN CASE arg[1] = "doc" ->
              LET body == DocBody(arg[3], arg[2])
                  op   == AddLine(base, Ln("Doc", arg[2], <<>>), FALSE)
